@@ -2,7 +2,7 @@
     the Sid-level clauses over the file system are exercised by correspondence in the data checks). *)
 From Coq Require Import List String Ascii Bool Arith Permutation Sorted.
 From Spil Require Import Base.Str Base.Dict Base.Outcome Regex.Re Conf.Conf Conf.WF Sid.Sid
-  Search.Unfold Search.FindList Search.GlobProofs Search.FindListProofs Search.UnfoldProofs.
+  Search.Unfold Search.FindList Search.Finders Search.GlobProofs Search.FindListProofs Search.UnfoldProofs Search.FindersProofs Conf.Routing FS.Fs Data.Data.
 From SpilGen Require Hamlet.
 Import ListNotations.
 Local Open Scope string_scope.
@@ -23,6 +23,20 @@ Theorem C12_as_sid : forall c Ld, load c = Some Ld -> wf_loadedb Ld = true ->
   exists l, find_list Ld items s = Ok l /\ map s_string xs = l.
 Proof. exact find_list_sids_strings_items. Qed.
 Print Assumptions C12_as_sid.
+
+(* Sid level, over the file-system model: exists() is non-emptiness of FindInAll's answer; a leaf has no children; no duplicates *)
+Theorem C12_sid_exists : forall Ld Rt F x b, sid_exists Ld Rt F x = Ok b -> s_fields x <> [] ->
+  exists l, find_all Ld Rt F (s_string x) = Ok l /\ b = match l with [] => false | s :: _ => truthy s end.
+Proof. exact sid_exists_spec. Qed.
+Print Assumptions C12_sid_exists.
+
+Theorem C12_leaf_no_children : forall Ld Rt F x, is_leaf Ld x = true -> children Ld Rt F x = Ok [].
+Proof. exact leaf_no_children. Qed.
+Print Assumptions C12_leaf_no_children.
+
+Theorem C12_find_all_nodup : forall Ld Rt F s l, find_all Ld Rt F s = Ok l -> NoDup l.
+Proof. exact find_all_nodup. Qed.
+Print Assumptions C12_find_all_nodup.
 
 (* the guard of C12_exists is needed: the recorded edge (D20) *)
 Example C12_exists_empty_string_refuted :
